@@ -2,9 +2,9 @@
    and Drain::next (re-translated from /repo on every run), evaluated by the IR semantics in the machine
    world with the function-boundary semantics of EquivElem.v, in terms of the list model. *)
 From Coq Require Import ZArith List Bool Lia Permutation.
-From MV Require Import Ast Eval Scalar Machine EquivDefs Prims EquivTac EquivElem EquivPop EquivRemove EquivInsert EquivSwapRemove EquivIter.
+From MV Require Import Ast Eval Scalar Machine EquivDefs Prims EquivTac EquivElem EquivPop EquivRemove EquivInsert EquivSwapRemove EquivIter EquivExtSlice.
 From MV.Gen Require Import AstGen.
-From MV.Proofs Require Import Arith Logic Prim View OpsLocal Guards Grow CapHistory Drops Retain DrainIt Sentinel Core Refine IterAt Resize.
+From MV.Proofs Require Import Arith Logic Prim View OpsLocal Guards Grow CapHistory Drops Retain DrainIt Sentinel Core Refine IterAt Resize Clone CloneSlice.
 Import ListNotations.
 Open Scope list_scope.
 Open Scope Z_scope.
@@ -137,5 +137,28 @@ Section SourceSpecs.
     intros Hab Hlen Hi Hl Hn He. rewrite (insert_equiv cfg ncap v i e s (vabs_len_ok s v l Hab Hlen) Hi).
     pose proof (insert_abs cfg ncap Hcfg Hpol Htracked s v l i e Hab Hl Hn He (proj1 Hi)) as H.
     unfold lift_m. destruct (insert cfg ncap v i e s) as [[a| | | | |] s']; simpl in *; tauto.
+  Qed.
+  (* extend_from_slice(&[T]) -- the `for` loop over the slice, as the translator renders it: the vector
+     is its old contents followed by one NEW element per source element, in order, each with its
+     source's payload; everything that existed before is untouched; a panic leaves the old contents plus
+     the clones made so far *)
+  Theorem extend_from_slice_source s w l src F :
+    vabs cfg s w l -> cloneable s src -> (List.length src <= F)%nat ->
+    match run_ext cfg ncap (FUEL + F) w src s with
+    | (Norm _, s') =>
+        vabs cfg s' w (l ++ zseq (next_elem s) (List.length src)) /\
+        next_elem s' = next_elem s + Z.of_nat (List.length src) /\
+        (forall e, e < next_elem s -> ledger s' e = ledger s e /\ payload s' e = payload s e) /\
+        (forall j, (j < List.length src)%nat -> payload s' (next_elem s + Z.of_nat j) = payload s (nth j src 0))
+    | (Panic, s') =>
+        exists k, (k <= List.length src)%nat /\ vabs cfg s' w (l ++ zseq (next_elem s) k) /\
+                  (forall e, e < next_elem s -> ledger s' e = ledger s e)
+    | (Fail FAbort, _) | (Fail (FAllocAbort _ _), _) => True
+    | _ => False
+    end.
+  Proof.
+    intros Hab Hcl HF. rewrite extend_from_slice_equiv by exact HF.
+    pose proof (extend_from_slice_abs cfg ncap Hcfg Hpol Htracked s w l src Hab Hcl) as H.
+    unfold lift_m. destruct (extend_from_slice cfg ncap w src s) as [[a| | | | |] s']; simpl in *; tauto.
   Qed.
 End SourceSpecs.
